@@ -126,6 +126,15 @@ def c04_input(w, inp):
             return
         for k in corpus.all_code(c):
             c04_check_code(w, inp, k)
+            # the same code object with co_nlocals edited by hand: CPython binds the parameters all the same
+            if k.co_varnames and inp.get('shape') and sum(inp['shape'][:3]) and V >= (3, 8):
+                for nl in (0, 1, len(k.co_varnames) + 1):
+                    try:
+                        k2 = k.replace(co_nlocals=nl)
+                    except (ValueError, SystemError):
+                        continue
+                    w.stats['altered_nlocals'] += 1
+                    c04_check_code(w, dict(inp, nlocals=nl), k2)
         w.sample({'src': src, 'opt': inp['opt']})
     else:
         c = compile_inp(inp)
